@@ -99,10 +99,16 @@ func verifClientWrite() [][]byte {
 		}
 	}
 	val := func() []byte {
-		if verifChoose("valkind", 2) == 0 {
+		switch verifChoose("valkind", 4) {
+		case 0:
 			return verifBytes("val", 2)
+		case 1:
+			return []byte(`{"record_type":"","version":"x","run_id":"rid1","unit_seq":1}`) // a value that looks like a marker
+		case 2:
+			return []byte("redis-gunyu-bisync:cp:marker:{t0}") // a value (not a key) under a reserved prefix
+		default:
+			return []byte("redis-gunyu-checkpoint rotated")
 		}
-		return []byte(`{"record_type":"","version":"x","run_id":"rid1","unit_seq":1}`) // a value that looks like a marker
 	}
 	switch verifChoose("cmd", 4) {
 	case 0:
